@@ -109,7 +109,18 @@ def _out(fn):
     return buf.getvalue(), res
 
 
-def listing_case(h0, h1, h2, sf, ff, header):
+COLMODES = ['all', 'default', 'reversed-subset']
+
+
+def _cols(mode, allcols, default_idx, subset_idx):
+    if mode == 'all':
+        return list(allcols), list(range(len(allcols)))
+    if mode == 'default':
+        return None, default_idx
+    return [allcols[i] for i in subset_idx], subset_idx
+
+
+def listing_case(h0, h1, h2, sf, ff, header, colmode='all'):
     rt.determinism(31)
     with world.scratch('c15') as d:
         U_ = users(True)
@@ -143,8 +154,11 @@ def listing_case(h0, h1, h2, sf, ff, header):
                 files[str(k.resolve())] = b'constant'
                 paths = [src]
             repo = fresh_repo(U_, 'A', be)
+            tick0 = rt._DetDatetime._tick
             res = rt.MiniLoop().run_until_complete(repo.snapshot(paths=paths, note=None if i == 1 else f'note {i}'))
-            snaps.append({'name': res.name, 'files': files, 'ts': res.data['utc_timestamp'], 'note': None if i == 1 else f'note {i}',
+            # ground truth for "true times" and "newest first" is the harness clock (UTC), not what the snapshot recorded
+            true_ts = str(rt._DetDatetime.true_utc(tick0 + 1))
+            snaps.append({'name': res.name, 'files': files, 'ts': true_ts, 'note': None if i == 1 else f'note {i}',
                           'data': res.data, 'chunks': res.chunks})
         # a snapshot of the independent user must never show up
         repo_c = fresh_repo(U_, 'C', be)
@@ -156,21 +170,25 @@ def listing_case(h0, h1, h2, sf, ff, header):
         sel.sort(key=lambda s: s['ts'], reverse=True)
         # ---- list_snapshots
         repo = fresh_repo(U_, 'A', be)
-        out, _ = _out(lambda: rt.MiniLoop().run_until_complete(repo.list_snapshots(snapshot_regex=sregex, header=bool(header), columns=ALLCOLS_S)))
+        cols_s, idx_s = _cols(colmode, ALLCOLS_S, [0, 1, 2, 3, 4], [4, 0, 3])
+        out, _ = _out(lambda: rt.MiniLoop().run_until_complete(repo.list_snapshots(snapshot_regex=sregex, header=bool(header), columns=cols_s)))
         lines = [l for l in out.splitlines() if l.strip()]
         if header and sel:
             lines = lines[1:]
         rows = [[c.strip() for c in l.split('\t')] for l in lines]
-        if [r[0] for r in rows] != [s['name'] for s in sel]:
+        name_col = idx_s.index(0)
+        if [r[name_col] for r in rows] != [s['name'] for s in sel]:
             return False, f'list_snapshots -S {sregex!r}: names/order {[r[0][:6] for r in rows]} expected {[s["name"][:6] for s in sel]}'
         for r, s in zip(rows, sel):
             size = sum(len(b) for b in s['files'].values())
             want = [s['name'], s['note'] or '--', s['ts'][:19], str(len(s['files'])), U.bytes_to_human(size)]
+            want = [want[i] for i in idx_s]
             if r != want:
                 return False, f'list_snapshots row {r} expected {want}'
         # ---- list_files
         repo = fresh_repo(U_, 'A', be)
-        out, _ = _out(lambda: rt.MiniLoop().run_until_complete(repo.list_files(snapshot_regex=sregex, file_regex=fregex, header=bool(header), columns=ALLCOLS_F)))
+        cols_f, idx_f = _cols(colmode, ALLCOLS_F, [1, 2, 3, 4, 6], [5, 2, 0])
+        out, _ = _out(lambda: rt.MiniLoop().run_until_complete(repo.list_files(snapshot_regex=sregex, file_regex=fregex, header=bool(header), columns=cols_f)))
         lines = [l for l in out.splitlines() if l.strip()]
         want_rows = []
         for s in sel:
@@ -182,7 +200,10 @@ def listing_case(h0, h1, h2, sf, ff, header):
         if header and want_rows:
             lines = lines[1:]
         rows = [[c.strip() for c in l.split('\t')] for l in lines]
-        if [r[0] for r in rows] != [w[0] for w in want_rows]:
+        order_names = [w[0] for w in want_rows]
+        want_rows = [[w[i] for i in idx_f] for w in want_rows]
+        key_col = idx_f.index(0) if 0 in idx_f else None
+        if key_col is not None and [r[key_col] for r in rows] != order_names:
             return False, f'list_files: snapshot order/selection differs ({len(rows)} rows, expected {len(want_rows)})'
         if sorted(map(tuple, rows)) != sorted(map(tuple, want_rows)):
             return False, f'list_files rows differ: {rows[:1]} vs {want_rows[:1]}'
@@ -224,8 +245,9 @@ def e_listing(k: int) -> bool:
     """
     h0, h1, h2, sf, ff, header = digits(k, [9, 9, 4, 5, 5, 2])
     with NoTracing():
-        ok, msg = listing_case(h0, h1, [4, 0, 8, 'only-empty'][h2], sf, ff, header)
-        tick('e_listing', [h0, h1, h2, SFILT[sf], FFILT[ff], header])
+        cm = (h0 + h1 + h2 + sf + ff) % 3        # column selection rotates with the other digits
+        ok, msg = listing_case(h0, h1, [4, 0, 8, 'only-empty'][h2], sf, ff, header, COLMODES[cm])
+        tick('e_listing', [h0, h1, h2, SFILT[sf], FFILT[ff], header, COLMODES[cm]])
         if not ok:
             _say(h0, h1, h2, SFILT[sf], FFILT[ff], header, msg)
         return ok
